@@ -527,7 +527,10 @@ func rich(r *rand.Rand, c RichCfg) *spec.Grammar {
 					}
 					if r.Intn(8) == 0 {
 						// around the 8-, 16- and 20-bit sizes
-						n = []int{255, 256, 257, 65535, 65536, 65537, 1 << 20, 1<<20 + 1}[r.Intn(8)]
+						// ... and the 31-, 32- and 40-bit sizes (JavaScript's bitwise operators work on 32 bits)
+						big := []int{255, 256, 257, 65535, 65536, 65537, 1 << 20, 1<<20 + 1,
+							1<<31 - 1, 1 << 31, 1<<31 + 1, 1<<32 - 1, 1 << 32, 1<<32 + 43, 1 << 40}
+						n = big[r.Intn(len(big))]
 					}
 					// a number equal to the code of a literal of the same grammar would be the user's own collision
 					if !usedNum[n] && !usedLit[n] {
